@@ -243,7 +243,7 @@ func c07Specs() []*edt.Spec {
 		// ---- the ladder (curve/montgomery.go) ----------------------------------------------------------
 		{
 			Pkg: "curve", Func: "(*MontgomeryPoint).Mul", SymLoops: true, MinPaths: 2,
-			Opaque: []string{"curve.montgomeryDifferentialAddAndDouble", "montgomeryProjectivePoint.conditionalSwap", "MontgomeryPoint.fromProjective", "montgomeryProjectivePoint.identity", "Scalar.Bits"},
+			Opaque: []string{"curve.montgomeryDifferentialAddAndDouble", "montgomeryProjectivePoint.conditionalSwap", "MontgomeryPoint.fromProjective", "Scalar.Bits"},
 			Vars:   map[string]string{"(φL0.0 < 0)": "done"},
 			Classify: func(p *edt.Path, out string, e *edt.Env) string {
 				switch {
@@ -261,7 +261,7 @@ func c07Specs() []*edt.Spec {
 			Extra: func(p *edt.Path, out, class string, e *edt.Env, ab func(string) string) string {
 				// initialisation (order-free): x0 = (1 : 0), x1 = (u : 1), u decoded from the input point, from bit 254 down
 				need := map[string]bool{
-					"loop L0: A<curve.montgomeryProjectivePoint>#0 enters as montgomeryProjectivePoint.identity":                                false,
+					"loop L0: A<curve.montgomeryProjectivePoint>#0 enters as agg(.U=(Element.One), .W=(Element.Zero))":                          false,
 					"loop L0: A<curve.montgomeryProjectivePoint>#1 enters as agg(.U=(Element.Set(Element.SetBytes($point))), .W=(Element.One))": false,
 					"loop L0: φL0.0 starts as 254": false,
 				}
@@ -326,13 +326,17 @@ func c07Specs() []*edt.Spec {
 		},
 		termSpec2("curve", "(*MontgomeryPoint).fromProjective", nil, "ptr($p)", map[string]string{"$p": "out1(Element.ToBytes(Element.Mul($pp.U, Element.Invert($pp.W)), $p))"}),
 		termSpec2("curve", "(*MontgomeryPoint).SetEdwards", nil, "ptr($p)", map[string]string{"$p": "out1(Element.ToBytes(Element.Mul(Element.Add($edwardsPoint.inner.Y, $edwardsPoint.inner.Z), Element.Invert(Element.Sub($edwardsPoint.inner.Z, $edwardsPoint.inner.Y))), $p))"}),
-		termSpec2("curve", "(*montgomeryProjectivePoint).identity", nil, "ptr($p)", map[string]string{"$p.U": "Element.One", "$p.W": "Element.Zero"}),
+		optional(termSpec2("curve", "(*montgomeryProjectivePoint).identity", nil, "ptr($p)", map[string]string{"$p.U": "Element.One", "$p.W": "Element.Zero"})),
 		termSpec2("curve", "(*montgomeryProjectivePoint).conditionalSwap", nil, "", map[string]string{
 			"$p.U": "Element.ConditionalSwap($p.U, $other.U, $choice)", "$other.U": "out1(Element.ConditionalSwap($p.U, $other.U, $choice))",
 			"$p.W": "Element.ConditionalSwap($p.W, $other.W, $choice)", "$other.W": "out1(Element.ConditionalSwap($p.W, $other.W, $choice))",
 		}),
 	}
 }
+
+// optional marks the specification of a small helper that may be inlined away (its effect is also
+// part of the specification of its user).
+func optional(s *edt.Spec) *edt.Spec { s.Optional = true; return s }
 
 // termSpec2: one path with the given outcome and final contents.
 func termSpec2(pkg, fn string, opaque []string, wantOut string, finals map[string]string) *edt.Spec {
